@@ -6,5 +6,5 @@ From FA.Model Require Import Literal.
 
 Extraction Language OCaml.
 Extraction "model.ml" expr_eqb size z_to_string z_of_string nat_to_string Z.of_nat
-  py_repr parse_literal literal_eval lit_expr finite as_ast as_ast_unfixed as_literal const_of_scalar
+  py_repr parse_literal literal_eval lit_expr finite embeddable as_ast as_ast_unfixed as_literal const_of_scalar
   check_ast consts const_legal as_terminal metadata_call wire_format.
